@@ -256,3 +256,72 @@ def _stmt(n):
     while n is not None and not isinstance(n, ast.stmt):
         n = parent(n)
     return n
+
+
+def rule_model_molecules(prog, rep):
+    """Mol2Molecule.assign_charges (formal charges + PEOE) and Mol2Atom.assign_radius are evaluated on model molecules built
+    as object models: neutral, carboxylate and phosphate groups, bonds listed in two different orders."""
+    import itertools
+    from ..guards import Flow, Obj
+    from ..objinterp import ObjRunner
+    r = rep.rule("R8", "model molecules: equilibrated charges sum to the formal charge; the phosphate rule does not depend on the listing order", floor=5)
+    where = "pdb2pqr/ligand/mol2.py (Mol2Atom.formal_charge, Mol2Molecule.assign_charges) / pdb2pqr/ligand/peoe.py (equilibrate)"
+
+    def molecule(atoms, bonds, order=None):
+        """atoms: [(name, type)], bonds: [(a, b, type)] -> Mol2Molecule model; `order` permutes the bond listing."""
+        A = {}
+        for n, t in atoms:
+            A[n] = Obj({"__class__": "Mol2Atom", "name": n, "type": t, "bonds": [], "bonded_atoms": [], "charge": None, "radius": None, "poly_terms": None,
+                        "chi": None, "delta_charge": None, "equil_formal_charge": None, "serial": len(A) + 1, "res_name": "LIG", "x": 0.0, "y": 0.0, "z": 0.0})
+        blist = list(bonds) if order is None else [bonds[i] for i in order]
+        for k, (a, b, t) in enumerate(blist):
+            bond = Obj({"__class__": "Mol2Bond", "atoms": [A[a], A[b]], "type": t, "bond_id": k + 1})
+            for x, y in ((a, b), (b, a)):
+                A[x]["bonds"].append(bond)
+                A[x]["bonded_atoms"].append(A[y])
+        return Obj({"__class__": "Mol2Molecule", "atoms": dict(A), "bonds": [], "rings": [], "torsions": [], "serial": 1, "name": "model"}), A
+
+    ethanol = ([("C1", "C.3"), ("C2", "C.3"), ("O1", "O.3"), ("H1", "H"), ("H2", "H"), ("H3", "H"), ("H4", "H"), ("H5", "H"), ("H6", "H")],
+               [("C1", "C2", "single"), ("C2", "O1", "single"), ("C1", "H1", "single"), ("C1", "H2", "single"), ("C1", "H3", "single"),
+                ("C2", "H4", "single"), ("C2", "H5", "single"), ("O1", "H6", "single")], 0.0)
+    acetate = ([("C1", "C.3"), ("C2", "C.2"), ("O1", "O.co2"), ("O2", "O.co2"), ("H1", "H"), ("H2", "H"), ("H3", "H")],
+               [("C1", "C2", "single"), ("C2", "O1", "aromatic"), ("C2", "O2", "aromatic"), ("C1", "H1", "single"), ("C1", "H2", "single"), ("C1", "H3", "single")], -1.0)
+    phosphate = ([("C1", "C.3"), ("O1", "O.3"), ("P1", "P.3"), ("O2", "O.2"), ("O3", "O.3"), ("O4", "O.3"), ("H1", "H"), ("H2", "H"), ("H3", "H")],
+                 [("C1", "O1", "single"), ("O1", "P1", "single"), ("P1", "O2", "double"), ("P1", "O3", "single"), ("P1", "O4", "single"),
+                  ("C1", "H1", "single"), ("C1", "H2", "single"), ("C1", "H3", "single")], -1.0)
+    cases = [("ethanol", ethanol, None), ("acetate", acetate, None), ("methyl phosphate", phosphate, None),
+             ("methyl phosphate, P=O listed first", phosphate, [2, 0, 1, 3, 4, 5, 6, 7]), ("methyl phosphate, bonds reversed", phosphate, [7, 6, 5, 4, 3, 2, 1, 0])]
+    run = None
+    for label, (atoms, bonds, total), order in cases:
+        mol, A = molecule(atoms, bonds, order)
+        run = ObjRunner(prog, "ligand/mol2.py")
+        try:
+            formal = {n: run.attrs(None, a, "formal_charge", None) for n, a in A.items()}
+            run.call(mol, "assign_charges")
+        except Flow as fl:
+            r.bad(f"molecule|{label}", f"assign_charges stops with {fl.value} on {label}", where)
+            continue
+        fsum = sum(formal.values())
+        qsum = sum(a["charge"] for a in A.values())
+        neg = sorted(n for n, q in formal.items() if q == -1)
+        okf = abs(fsum - total) < 1e-9 and (label.startswith("methyl phosphate") is False or (len(neg) == 1 and neg[0] in ("O3", "O4")))
+        okq = abs(qsum - fsum) < 1e-6
+        r.add(f"molecule|{label}", okf and okq,
+              f"{label}: formal charges sum to {fsum:+.3f} (expected {total:+.1f}" + (f", the charged oxygen is {neg}" if label.startswith("methyl phosphate") else "") +
+              f"); after equilibration the charges sum to {qsum:+.6f}" + ("" if okf and okq else " -- charge is created or destroyed"), where)
+    # radius lookup order and failure
+    rr = rep.rule("R9", "model tables: a radius is taken by Sybyl type, then element, from the primary, then the secondary table; a miss raises", floor=4)
+    wr = "pdb2pqr/ligand/mol2.py (Mol2Atom.assign_radius)"
+    probes = [("type in primary", {"C.3": 1.1, "C": 1.2}, {"C.3": 2.1, "C": 2.2}, 1.1), ("element in primary", {"C": 1.2}, {"C.3": 2.1, "C": 2.2}, 1.2),
+              ("type in secondary", {"O": 9.0}, {"C.3": 2.1, "C": 2.2}, 2.1), ("element in secondary", {"O": 9.0}, {"C": 2.2}, 2.2), ("nowhere", {"O": 9.0}, {"N": 9.0}, KeyError)]
+    for label, prim, sec, want in probes:
+        atom = Obj({"__class__": "Mol2Atom", "name": "C1", "type": "C.3", "radius": None})
+        run = ObjRunner(prog, "ligand/mol2.py")
+        try:
+            run.call(atom, "assign_radius", prim, sec)
+            got = atom["radius"]
+        except Flow as fl:
+            got = KeyError if str(fl.value).startswith("KeyError") else f"raises {fl.value}"
+        rr.add(f"radius|{label}", got == want, f"{label}: radius {got} (expected {want})", wr)
+    if run is not None:
+        r.info["methods_interpreted"] = sorted(set(run.calls))
